@@ -47,6 +47,7 @@ type Report struct {
 	Distinct     int             `json:"distinct_nontrivial"`
 	Mismatches   []Mismatch      `json:"mismatches"`
 	NMismatch    int             `json:"n_mismatches"`
+	Skipped      int             `json:"model_skipped"`
 	Violations   []PropViolation `json:"violations"`
 	NViolations  int             `json:"n_violations"`
 	Samples      []string        `json:"samples"`
@@ -88,6 +89,11 @@ type Stream struct {
 	Run  func(c *Ctx)
 	// Replay recomputes the implementation's answer for one request line.
 	Replay func(line string) (string, error)
+	// Skip reports model answers that mean "outside the modelled subset": such a
+	// case is counted as skipped, not compared.
+	Skip func(model string) bool
+	// Same compares the two answers (default: string equality).
+	Same func(impl, model string) bool
 }
 
 var streams = map[string]*Stream{}
@@ -194,10 +200,18 @@ func main() {
 	} else {
 		keys := map[string]bool{}
 		for i, c := range ctx.cases {
+			if st.Skip != nil && !*nomodel && st.Skip(model[i]) {
+				rep.Skipped++
+				continue
+			}
+			same := model[i] == c.Impl
+			if !same && st.Same != nil {
+				same = st.Same(c.Impl, model[i])
+			}
 			if c.Key != "" {
 				keys[c.Key] = true
 			}
-			if model[i] != c.Impl {
+			if !same {
 				rep.NMismatch++
 				if len(rep.Mismatches) < 50 {
 					rep.Mismatches = append(rep.Mismatches, Mismatch{Line: c.Line, Impl: c.Impl, Model: model[i]})
